@@ -853,19 +853,15 @@ def call_ext(ev, dotted, args, kwargs, node):
     if dotted.startswith("scipy.stats.norm."):
         fn = dotted.rsplit(".", 1)[1]
         if fn in ("cdf", "sf", "ppf", "isf"):
-            x = as_v(ev, args[0] if args else kwargs.get("x", kwargs.get("q")))
+            x = args[0] if args else kwargs.get("x", kwargs.get("q"))
             loc = args[1] if len(args) > 1 else kwargs.get("loc")
             scale = args[2] if len(args) > 2 else kwargs.get("scale")
-            if scale is not None and not (isinstance(as_v(ev, scale), Const)):
-                # scipy.stats returns NaN wherever scale <= 0 (also for scale == 0, a degenerate distribution): recorded for rules whose
-                # scale can vanish (the binomial standard error is 0 for a rate of exactly 0 or 1)
-                ev.event("norm_scale", fn=fn, scale=as_v(ev, scale), node=node)
-            if fn in ("ppf", "isf"):
-                # a quantile taken at 1 - q: the complement is formed in floating point first (q below 1e-16 is lost entirely,
-                # q = 1e-12 keeps 4 digits); the survival-function twin (isf for ppf, ppf for isf) takes q itself
-                if isinstance(x, V) and x.key in getattr(ev, "complement_keys", ()):
-                    ev.event("tail_cancellation", op="%s(1 - q)" % fn, arg=x, node=node, text="norm.%s(%s)" % (fn, show(x, 60)))
-            return norm_fn(fn, x, as_v(ev, loc) if loc is not None else None, as_v(ev, scale) if scale is not None else None)
+            return _norm_call(ev, fn, x, loc, scale, node)
+    if dotted == "scipy.stats.norm":
+        # a frozen normal distribution: norm(loc, scale).cdf(x) is norm.cdf(x, loc, scale)
+        loc = args[0] if args else kwargs.get("loc")
+        scale = args[1] if len(args) > 1 else kwargs.get("scale")
+        return App("frozen_norm", (as_v(ev, loc) if loc is not None else Const(None), as_v(ev, scale) if scale is not None else Const(None)))
     if dotted.startswith("scipy.stats."):
         return App(dotted.split("scipy.stats.", 1)[1], [as_v(ev, a) for a in args], _kw(ev, kwargs))
     if dotted in ("math.pow",):
@@ -989,6 +985,21 @@ def call_ext(ev, dotted, args, kwargs, node):
         return App("type:" + dotted, ())
     ev.note_unmodelled(dotted, node)
     return App("ext:" + dotted, [as_v(ev, a) for a in args], _kw(ev, kwargs))
+
+
+def _norm_call(ev, fn, x, loc, scale, node):
+    """scipy.stats.norm.<fn>(x, loc, scale) for fn in cdf / sf / ppf / isf."""
+    x = as_v(ev, x)
+    if scale is not None and not (isinstance(as_v(ev, scale), Const)):
+        # scipy.stats returns NaN wherever scale <= 0 (also for scale == 0, a degenerate distribution): recorded for rules whose
+        # scale can vanish (the binomial standard error is 0 for a rate of exactly 0 or 1)
+        ev.event("norm_scale", fn=fn, scale=as_v(ev, scale), node=node)
+    if fn in ("ppf", "isf"):
+        # a quantile taken at 1 - q: the complement is formed in floating point first (q below 1e-16 is lost entirely,
+        # q = 1e-12 keeps 4 digits); the survival-function twin (isf for ppf, ppf for isf) takes q itself
+        if isinstance(x, V) and x.key in getattr(ev, "complement_keys", ()):
+            ev.event("tail_cancellation", op="%s(1 - q)" % fn, arg=x, node=node, text="norm.%s(%s)" % (fn, show(x, 60)))
+    return norm_fn(fn, x, as_v(ev, loc) if loc is not None else None, as_v(ev, scale) if scale is not None else None)
 
 
 def powv_general(a, b):
@@ -1312,6 +1323,12 @@ def call_method(ev, recv, name, args, kwargs, node):
     if name in NP_METHOD_FORMS and isinstance(v, V) and not (isinstance(v, Sym) and ("frame" in v.tags or "series" in v.tags)):
         # ndarray method forms of numpy functions: one canonical term per operation
         return np_call(ev, name, [v] + list(args), dict(kwargs), node)
+    if name == "to_numpy" and not args and not kwargs and isinstance(v, V):
+        return App("attr:values", (v,))     # frame / series .to_numpy() with the defaults is .values
+    if isinstance(v, App) and v.fn == "frozen_norm" and name in ("cdf", "sf", "ppf", "isf") and (args or kwargs):
+        x = args[0] if args else kwargs.get("x", kwargs.get("q"))
+        loc, scale = v.args
+        return _norm_call(ev, name, x, None if loc == Const(None) else loc, None if scale == Const(None) else scale, node)
     if name == "ppf" or name == "cdf":
         return App(name, (v,) + tuple(as_v(ev, a) for a in args), _kw(ev, kwargs))
     if name in METHOD_PURE:
